@@ -271,6 +271,11 @@ def gen_ops(rng, n_sessions, lists, thorough=False):
         kind = 'dlocp' if reg.startswith('c20_ocp') else 'dl'
         ops.append(f'new {kind} {file} {reg} {(1 << 13) - 1 if kind == "dlocp" else 5} 2 {1 if kind == "dlocp" else 2} 0')
         ops.append('create'); ops.append('prov 0')
+        if reg == 'c20_defaultinit':
+            ops += [f'call 0 {f} {nlp_args(rng, 2, 2)}' for f in ('eval_f', 'eval_proj_diff_g', 'eval_proj_multipliers')]
+    i, has, prov = ocps[0]
+    ops += [f'new ocp {i} {has} {prov} 0 1 0', 'create', 'prov 0'] + [
+        f'call 0 {f} {ocp_args(rng, 1, 0)}' for f in ('eval_f', 'eval_constr', 'get_D_N', 'eval_add_R_prod_masked', 'eval_h')]
     i, has, prov = natives[1]
     a = nlp_args(rng, 2, 2)
     ops += [f'new native {i} {has} {prov} 0 2 2', 'create', 'copy 0', f'call 0 eval_f {a}', f'call 1 eval_f {a}',
@@ -484,10 +489,11 @@ def monitor(op, out, st):
             return f'unparsable call output {out[:120]!r}'
         W, D, R = r['W'], r.get('D'), r.get('R')
         msgs = []
+        keyed = None
         # (a) the loader / function-object class against the direct reference
         if R is not None and D is not None and (D['st'], D['log'], D['vals']) != (R['st'], R['log'], R['vals']):
-            return (f'{s["kind"]}: {fn} through the loader/class gives ({D["st"]}, ran {D["log"]}, {D["vals"][:80]}), '
-                    f'calling the underlying functions directly gives ({R["st"]}, ran {R["log"]}, {R["vals"][:80]})')
+            msgs.append(f'{s["kind"]}: {fn} through the loader/class gives ({D["st"]}, ran {D["log"]}, {D["vals"][:80]}), '
+                        f'calling the underlying functions directly gives ({R["st"]}, ran {R["log"]}, {R["vals"][:80]})')
         if s['kind'] == 'dl' and s['reg'] == 'c20_defaultinit' and D is not None and D['st'] == 'crash':
             return (f'plug-in table obtained by default-initialisation omits {fn}: the documented default should '
                     f'run, the loader calls an indeterminate pointer ({D["vals"]})', K_F7)
@@ -495,8 +501,10 @@ def monitor(op, out, st):
         provD = s.get('provD')
         if D is not None and provD is not None:
             m = flags_vs_behaviour(s, fn, provD, D, 'underlying problem')
-            if m:
-                return m
+            if m and isinstance(m, tuple):
+                keyed = m
+            elif m:
+                msgs.append(m)
         # (c) the counting wrapper against the underlying problem
         if me['dead'] and W['st'] == 'crash':
             # the property: the wrapper stays usable and this call is counted — keep the spec tally in step
@@ -526,7 +534,7 @@ def monitor(op, out, st):
                         f'requires {spec}', K_F1)
             msgs.append(f'after {fn} (underlying calls {W["log"]}) wrapper {w} reads counters {r["cnt"]}, '
                         f'the calls made through its sharing group give {spec}')
-        return msgs[0] if msgs else None
+        return msgs[0] if msgs else keyed
     return None
 
 
@@ -648,7 +656,7 @@ def main(argv):
                     else:
                         cur.append(tuple(int(x) for x in tok.split(':')))
             rng = random.Random(C.seed() * 1000003 + (17 if thorough else 0))
-            n = 900 if thorough else 140
+            n = 2500 if thorough else 300
             ops = gen_ops(rng, n, (natives, ocps), thorough)
 
             def run_monitors(ops, hout, label):
